@@ -97,6 +97,18 @@ def histories(tier, seed):
         out.append(H.mk_history("q%d" % n, H.random_history(rng, rng.randint(6, 30), two=True),
                                 {"e1": k1, "e2": k2}, cfgs=H.LC_CFGS))
         n += 1
+    # the completion status is kept per engine object: after one object completed, setting up and driving another one
+    # (same kind or not, any order of requests) leaves the first object's answer alone. (Only calls that are safe under
+    # finding F6 - the status queries of the first object read nothing from the native simulation.)
+    for k1 in H.KINDS:
+        for k2 in H.KINDS:
+            for first, second in (("e1", "e2"), ("e2", "e1")):
+                for c1, c2 in (("A", "B"), ("C", "A")):
+                    calls = [["setup", first, c1], ["iterate_n", first, 1000], ["is_complete", first], ["setup", second, c2],
+                             ["is_complete", first], ["is_complete", second], ["iterate", second], ["is_complete", first],
+                             ["iterate_n", second, 1000], ["is_complete", second], ["is_complete", first]]
+                    out.append(H.mk_history("i%d" % n, calls, {"e1": k1 if first == "e1" else k2, "e2": k2 if first == "e1" else k1}, cfgs=H.LC_CFGS))
+                    n += 1
     # every other history obtains its engine objects from the package's factories (engine_collection), the others from
     # the LibRDEngine constructor: two requests must give two objects with their own status
     for i, h in enumerate(out):
